@@ -1331,6 +1331,64 @@ def _inline_private_helpers(cls, fa, exported, depth=0):
             return body[:-1] + [ast.Return(value=last_ret.value)]
         return body[:-1] + [ast.Assign(targets=[target], value=last_ret.value)]
 
+    def helper_body(call):
+        """the statements of the private helper called by `call`, parameters substituted; None when `call` is not such a call"""
+        f = call.func
+        if not (isinstance(f, ast.Attribute) and isinstance(f.value, ast.Name) and f.value.id == "self" and private(f.attr)) or call.keywords:
+            return None
+        fn = lookup(f.attr)
+        if fn is None:
+            return None
+        try:
+            ha = func_ast(fn)
+        except (OSError, TypeError):
+            return None
+        params = [a.arg for a in ha.args.args]
+        if params and params[0] == "self":
+            params = params[1:]
+        if len(params) != len(call.args) or not all(isinstance(a, (ast.Name, ast.Attribute, ast.Constant)) for a in call.args):
+            return None
+        sub = dict(zip(params, call.args))
+        body = _nodoc(ha.body)
+        if any(isinstance(n_, (ast.Assign, ast.AugAssign, ast.AnnAssign, ast.NamedExpr)) for b in body for n_ in ast.walk(b)):
+            return None
+
+        class S(ast.NodeTransformer):
+            def visit_Name(self, node):
+                if node.id in sub and isinstance(node.ctx, ast.Load):
+                    return copy.deepcopy(sub[node.id])
+                return node
+        return [S().visit(copy.deepcopy(b)) for b in body]
+
+    def always_returns(stmts):
+        if not stmts:
+            return False
+        l_ = stmts[-1]
+        if isinstance(l_, ast.Return):
+            return True
+        return isinstance(l_, ast.If) and always_returns(l_.body) and always_returns(l_.orelse)
+
+    def graft(stmts, then, orelse):
+        if not stmts:
+            return None
+        s0 = stmts[0]
+        if isinstance(s0, ast.Return):
+            v = s0.value
+            if isinstance(v, ast.Constant) and v.value is True:
+                return copy.deepcopy(then)
+            if isinstance(v, ast.Constant) and v.value is False:
+                return copy.deepcopy(orelse)
+            if v is None or not then:
+                return None
+            return [ast.If(test=v, body=copy.deepcopy(then), orelse=copy.deepcopy(orelse))]
+        if isinstance(s0, ast.If) and always_returns(s0.body) and (not s0.orelse or always_returns(s0.orelse)):
+            b_ = graft(s0.body, then, orelse)
+            e_ = graft(s0.orelse if s0.orelse else stmts[1:], then, orelse)
+            if b_ is None or e_ is None or not b_:
+                return None
+            return [ast.If(test=s0.test, body=b_, orelse=e_)]
+        return None
+
     def walk(stmts):
         out = []
         for s_ in stmts:
@@ -1344,6 +1402,15 @@ def _inline_private_helpers(cls, fa, exported, depth=0):
             if rep is not None:
                 out += [ast.fix_missing_locations(x) for x in rep]
                 continue
+            if isinstance(s_, ast.If) and isinstance(s_.test, ast.Call):
+                # `if self._predicate(args): X else: Y` with a private predicate made of `if c: return True/False` ladders:
+                # the ladder is grafted in, X at its True leaves and Y at its False leaves (Python evaluates exactly the same tests
+                # in the same order)
+                hb = helper_body(s_.test)
+                g_ = graft(hb, s_.body, s_.orelse) if hb is not None else None
+                if g_:
+                    out += walk([ast.fix_missing_locations(x) for x in g_])
+                    continue
             for fld in ("body", "orelse", "finalbody"):
                 if hasattr(s_, fld) and isinstance(getattr(s_, fld), list):
                     setattr(s_, fld, walk(getattr(s_, fld)))
